@@ -34,7 +34,10 @@ def run_impl(sc):
                 attrs = {"states_": group}
             else:
                 dup = sc.get("dup_names") or []
-                states = [State(*(["Step"] if k in dup else []), initial=i, final=f) for k, (i, f) in enumerate(sc["states"])]
+                eqv = sc.get("equal_values") or []       # two states whose values are equal as dict keys: 1 and True
+                states = [State(*(["Step"] if k in dup else []), initial=i, final=f,
+                                **({"value": (1 if k == eqv[0] else True)} if k in eqv else {}))
+                          for k, (i, f) in enumerate(sc["states"])]
                 attrs = {f"s{k}": st for k, st in enumerate(states)}
             states = states + [State() for _ in range(3)]      # targets that never become states of the class
             shared_any = {}
@@ -146,6 +149,8 @@ def render_source(sc):
         lines.append(f"    a{k} = s{t}.from_.any(internal={bool(internal)})")
     if sc.get("strict_parent") and not sc["strict"]:
         lines.append("# M inherits from an abstract class declared with strict_states=True and is itself declared without the keyword")
+    if sc.get("equal_values"):
+        lines.append(f"# states {sc['equal_values']} have the values 1 and True (equal as dictionary keys)")
     if sc.get("events_first"):
         lines.append("# the events are `eJ = Event()` attributes written before the states; the transitions use event=eJ")
     if sc.get("dup_names"):
@@ -299,6 +304,10 @@ def generate(rng, tier):
                 d["dup_names"] = rng.sample(range(len(d["states"])), rng.randint(2, len(d["states"])))   # states sharing a display name
             if rng.random() < 0.3:
                 d["strict_parent"] = True
+            fins = [k for k, (_i, f_) in enumerate(d["states"]) if f_ and k < len(d["states"]) - 1]
+            if fins and not d.get("via_enum") and rng.random() < 0.5:
+                f0 = rng.choice(fins)
+                d["equal_values"] = [f0, rng.randrange(f0 + 1, len(d["states"]))]
             if rng.random() < 0.25 and not d.get("via_enum"):
                 d["events_first"] = True
             if d["any"] and not d.get("via_enum") and all(tr[0] != t_ for tr in d["trans"] for t_, _i in d["any"]) and rng.random() < 0.7:
